@@ -32,8 +32,9 @@ TRUSTED = ["modelled not verified: SQLite statement semantics (INTEGER seq_num c
            "ed25519/BLAKE3/CBOR inside validate_operation and Header::hash"]
 RULE = ("quick: all delivery orders of one honest 4-entry log for all 16 prune-flag patterns, all orders of three 5-entry logs with 2 "
         "prune points, u32-boundary cases, 450 random multi-author/multi-log histories (chains with prune points, gaps, wrong backlinks, "
-        "forged copies in the same slot, body-less copies, shuffles/duplicates/drops/late re-delivery); thorough: all orders of all 32 "
-        "5-entry patterns, four 6-entry patterns, 3000 larger random histories. non-trivial = at least two operations inserted and at "
+        "forged copies in the same slot, body-less copies, shuffles/duplicates/drops/late re-delivery), 40 histories with copies carrying "
+        "a foreign/junk hash field (class of the open finding); thorough: all orders of all 32 "
+        "5-entry patterns, two 6-entry patterns, 2000 larger random histories, 200 with foreign hash fields. non-trivial = at least two operations inserted and at "
         "least one rejected in the same case")
 NONTRIVIAL_FLOOR = 50
 
@@ -48,13 +49,17 @@ def gen(tier, rng):
             yield from L.single_log_permutations(flags)
         for _ in range(450):
             yield L.random_history(rng)
+        for _ in range(40):
+            yield L.random_history(rng, bad_ids=True, prune_p=0.4)
     else:
         for flags in itertools.product([0, 1], repeat=5):
             yield from L.single_log_permutations(list(flags))
-        for flags in ([0, 1, 0, 0, 1, 0], [0, 0, 1, 1, 0, 1], [1, 0, 1, 0, 1, 0], [0, 0, 0, 1, 0, 0]):
+        for flags in ([0, 1, 0, 0, 1, 0], [0, 0, 1, 1, 0, 1]):
             yield from L.single_log_permutations(flags)
-        for _ in range(3000):
+        for _ in range(2000):
             yield L.random_history(rng, big=True)
+        for _ in range(200):
+            yield L.random_history(rng, bad_ids=True, prune_p=0.4)
 
 
 harness_line = L.harness_line
@@ -72,6 +77,11 @@ def coq_oracle(case, impl):
 def nontrivial(case, impl):
     rs = [st.split("/")[0] for st in impl.split(" ; ")[1:]]
     return rs.count("I") >= 2 and any(r.startswith("R:") for r in rs)
+
+
+def known(case, impl):
+    # class of the open finding: a validated operation whose `hash` field is not its header hash was delivered
+    return None if L.ids_ok(case) else "foreign-hash-field-accepted"
 
 
 shrink = L.shrink
